@@ -54,7 +54,12 @@ def judge_step(kind, k, r, S, ref, v, ctx, B):
             legit = (kind == 'stepi' and k + 1 >= T.n) or (kind == 'finish' and (act is None or act[1] >= T.n)) or \
                     (kind in ('next', 'step') and js is None)
             v.count('steps_ending_in_exit')
-            if not legit:
+            if not legit and kind in ('next', 'step') and T.pc[js] in B:
+                # same cause as a skipped line with a user breakpoint on it; here nothing later stopped the program
+                v.violation(f'c03:{kind}:skipped-a-line:skipped-row-has-a-user-breakpoint:any',
+                            'the step ran past the first statement boundary of a different line reached in the current activation',
+                            dict(detail, skipped_row=hex(T.pc[js]), ran_to_exit=True))
+            elif not legit:
                 v.violation(f'c03:{kind}:ran-to-exit:{feat}', 'the step ran to process exit although its landing point exists in the execution', detail)
             return None
         v.violation(f'c03:{kind}:error:{feat}', f'step command failed: {err}', detail)
